@@ -3,11 +3,12 @@
 Everything is drawn from the `random.Random` passed in; nothing here reads a clock or the environment.
 Identifiers stay <= 8 characters and numeric literals < 2**16 (see DESIGN.md: regex blow-up hazard).
 """
+import copy
 import json
 
 REG_POOL = ['a', 'b', 'x', 'ab', 'sp', 'a1', 'ix', 'mar', 'r0', 'r1', 'hl', 'h']
 MNEMONIC_POOL = ['nop', 'ld', 'ld.b', 'ldx', 'ldi', 'st', 'add', 'addc', 'jmp', 'j', 'mov', 'mov.w', 'inc', 'hlt',
-                 'call', 'ret', 'sta', 'b_2', 'cmp', 'out', 'in', 'push', 'pop', 'swap', 'jz', 'jnz', 'st.w']
+                 'call', 'ret', 'sta', 'b_2', 'cmp', 'out', 'in', 'push', 'pop', 'swap', 'jz', 'jnz', 'st.w', 'w']
 MACRO_POOL = ['push2', 'ldw', 'mov2', 'inc2', 'clr', 'jsr', 'ld.w']
 ENUM_KEYS = ['aye', 'bee', 'cee', 'dee', 'zed', 'nz', 'cs', 'e0', 'e0.h', 'e0.l', 'nz.x', 'ay']
 LABEL_POOL = ['start', 'loop', 'done', 'data', 'tbl', 'main', 'next', 'fin', 'buf', 'msg', 'vec', 'top', 'end1',
@@ -81,16 +82,41 @@ def gen_isa(rnd, *, want_macros=None, small=False, allow_numeric_enum=False):
         'size': 8, 'byte_align': True, 'value_dict': {k: 0xA0 + i for i, k in enumerate(enum_keys)}}}}}
     opsets['bits'] = {'operand_values': {'bits': {'type': 'numeric_bytecode', 'bytecode': {'size': 3, 'max': 7,
                                                                                          'min': 0}}}}
+    opsets['addrs'] = {'operand_values': {'addr': {'type': 'address', 'bytecode': {'value': 5, 'size': 4},
+                                                    'argument': {'size': 16, 'byte_align': True}}}}
+    opsets['rels'] = {'operand_values': {'rel': {'type': 'relative_address', 'use_curly_braces': True,
+                                                  'bytecode': {'value': 6, 'size': 4},
+                                                  'argument': {'size': 8, 'byte_align': True, 'max': 127, 'min': -128}}}}
+    opsets['defr'] = {'operand_values': {'defr': {'type': 'deferred_numeric', 'bytecode': {'value': 4, 'size': 3},
+                                                   'argument': {'size': 16, 'byte_align': True}}}}
+    if registers:
+        r0 = registers[0]
+        idx_ops = {'idx_imm': {'type': 'numeric', 'bytecode': {'value': 1, 'size': 2},
+                               'argument': {'size': 8, 'byte_align': True}}}
+        if len(registers) > 1:
+            idx_ops['idx_reg'] = {'type': 'register', 'register': registers[1], 'bytecode': {'value': 2, 'size': 2}}
+        opsets['xregs'] = {'operand_values': {'xr': {'type': 'indexed_register', 'register': r0,
+                                                     'bytecode': {'value': 1, 'size': 1}, 'index_operands': idx_ops}}}
+        opsets['ixregs'] = {'operand_values': {'ixr': {'type': 'indirect_indexed_register', 'register': r0,
+                                                       'bytecode': {'value': 0, 'size': 1},
+                                                       'index_operands': copy.deepcopy(idx_ops)}}}
+        opsets['dregs'] = {'operand_values': {
+            'post_inc': {'type': 'register', 'register': r0, 'bytecode': {'value': 1, 'size': 3},
+                         'decorator': {'type': 'plus', 'is_prefix': False}},
+            'pre_dec': {'type': 'register', 'register': r0, 'bytecode': {'value': 2, 'size': 3},
+                        'decorator': {'type': 'minus_minus', 'is_prefix': True}},
+            'plain': {'type': 'register', 'register': r0, 'bytecode': {'value': 3, 'size': 3}}}}
     # mixed set: register or immediate (exercises the precedence sort inside an operand set)
     if registers:
         mixed = dict(opsets['regs']['operand_values'])
         mixed['imm8'] = opsets['imm8']['operand_values']['imm8']
         opsets['src'] = {'operand_values': mixed}
 
-    kinds = ['n8', 'n16', 'm16', 'en', 'nb', 'n4', 'n12']
+    kinds = ['n8', 'n16', 'm16', 'en', 'nb', 'n4', 'n12', 'adr', 'rel', 'dn']
     if registers:
-        kinds += ['reg', 'reg', 'ir', 'src']
-    kind_set = {'n4': 'imm4', 'n12': 'imm12', 'n8': 'imm8', 'n16': 'imm16', 'm16': 'mem16', 'en': 'enum', 'nb': 'bits', 'reg': 'regs',
+        kinds += ['reg', 'reg', 'ir', 'src', 'xr', 'ixr', 'dreg']
+    kind_set = {'adr': 'addrs', 'rel': 'rels', 'dn': 'defr', 'xr': 'xregs', 'ixr': 'ixregs', 'dreg': 'dregs',
+                'n4': 'imm4', 'n12': 'imm12', 'n8': 'imm8', 'n16': 'imm16', 'm16': 'mem16', 'en': 'enum', 'nb': 'bits', 'reg': 'regs',
                 'ir': 'iregs', 'src': 'src'}
 
     n_instr = rnd.randrange(2, 5 if small else 9)
@@ -105,12 +131,14 @@ def gen_isa(rnd, *, want_macros=None, small=False, allow_numeric_enum=False):
         nonlocal opcode
         opcode += 1
         # opcode field width chosen so the whole instruction is a whole number of bytes most of the time
-        code_bits = sum(3 for k in ops if k in ('reg', 'ir', 'n8', 'm16', 'en', 'nb', 'src'))
-        code_bits += sum({'n4': 8, 'n12': 16}.get(k, 0) for k in ops)
+        code_bits = sum(3 for k in ops if k in ('reg', 'ir', 'n8', 'm16', 'en', 'nb', 'src', 'dn', 'xr', 'ixr', 'dreg'))
+        code_bits += sum({'n4': 8, 'n12': 16, 'adr': 4, 'rel': 4}.get(k, 0) for k in ops)
         size = 8 - (code_bits % 8) if code_bits % 8 else 8
         if size < 4:
             size += 8
         v = {'bytecode': {'value': opcode % (1 << min(size, 8)), 'size': size}}
+        if not ops and rnd.random() < 0.5:
+            v['operands'] = {'count': 0}        # an explicit, empty operand section is legal too
         if ops:
             v['operands'] = {'count': len(ops), 'operand_sets': {'list': [kind_set[k] for k in ops]}}
             if len(ops) == 2 and rnd.random() < 0.2:
@@ -227,6 +255,7 @@ class ProgGen:
         self.use_zones = use_zones
         self.use_org = use_org
         self.labels = []            # global labels defined (anywhere in the program)
+        self.recent_label = None    # the last label emitted so far (a close-by target for relative addresses)
         self.consts = dict(info['consts'])
         self.lines = []
         regs = set(r.lower() for r in info['registers'])
@@ -294,6 +323,31 @@ class ProgGen:
             return rnd.choice(info['enum_keys'])
         if kind == 'nb':
             return str(rnd.randrange(0, 8))
+        if kind == 'adr':
+            top = (1 << info['addr_bits']) - 1
+            if self.labels and rnd.random() < 0.6:
+                return rnd.choice(self.labels)
+            return num_literal(rnd, rnd.randrange(0, top + 1))
+        if kind == 'rel':
+            # relative to something close by: the most recently emitted label, or a small literal address near origin
+            if self.recent_label:
+                return '{' + self.recent_label + '}'
+            return '{' + str(info['origin'] + rnd.randrange(0, 8)) + '}'
+        if kind == 'dn':
+            return f'[[{self.expr16()}]]'
+        if kind == 'xr':
+            r0 = info['registers'][0]
+            if len(info['registers']) > 1 and rnd.random() < 0.4:
+                return f'{r0} + {info["registers"][1]}'
+            return f'{r0}+{rnd.randrange(0, 200)}'
+        if kind == 'ixr':
+            r0 = info['registers'][0]
+            if len(info['registers']) > 1 and rnd.random() < 0.4:
+                return f'[{r0} + {info["registers"][1]}]'
+            return f'[{r0} + {rnd.randrange(0, 200)}]'
+        if kind == 'dreg':
+            r0 = info['registers'][0]
+            return rnd.choice([f'{r0}+', f'--{r0}', r0])
         raise ValueError(kind)
 
     def statement(self):
@@ -304,7 +358,8 @@ class ProgGen:
         ops = rnd.choice(allops[m])
         text = m.upper() if rnd.random() < 0.1 else m
         if ops:
-            text += ' ' + rnd.choice([', ', ',']).join(self.operand(k) for k in ops)
+            # any amount of blanks between the mnemonic and its operands and after the commas
+            text += rnd.choice([' ', ' ', '  ', '    ']) + rnd.choice([', ', ',', ',   ']).join(self.operand(k) for k in ops)
         return text
 
     def data_line(self):
@@ -353,6 +408,7 @@ class ProgGen:
             if positions and i == positions[0]:
                 positions.pop(0)
                 lab = pending.pop()
+                self.recent_label = lab
                 if rnd.random() < 0.3:
                     lines.append(f'{lab}: {self.statement()}')
                 else:
